@@ -9,6 +9,9 @@ var stdWeights = map[string]int{"put": 34, "activate": 14, "delver": 14, "del": 
 var profC02 = &dbProfile{
 	Name: "C02", N: map[string]int{"quick": 400, "thorough": 20000}, MinLen: 4, MaxLen: 40,
 	Callers: superOnly, Weights: stdWeights,
+	// "failed calls change nothing" includes calls that fail because the file system refused the save or
+	// the audit log refused the record (write and sync failures)
+	SaveFailP: 0.08, AuditP: 0.04,
 	Nontrivial: func(in DBInput, obs []stepObs) bool {
 		// at least one successful mutation after the first put, and one failed call
 		muts, fails := 0, 0
